@@ -4,7 +4,7 @@ import seqfam, vlib
 
 ASSUME = ["a NULL or missing ON-key component leaves match / no-match open (the statement is silent)", "single caller, operations in sequence: an update that returned is visible to the next row",
           "WHERE on joined columns is a comparison of a table column with a numeric literal; GROUP BY on joined columns is exercised on the window path by one scenario shape",
-          "concurrent updater/emitter interleavings are model-checked (Join.tla) but replayed only sequentially in this round"]
+          "concurrent replay: one updater goroutine (updates in sequence) and two EmitSync callers; a row may have been enriched from the table after any prefix of the updates between 'all that had returned before its call' and 'all that were called before its return' (TraceJoinConc)"]
 KEYVALS = [1, 2, {"$f": 1.0}, {"$f": 2.5}, "1", "a", "b", 16777216, 16777217, 1700000000, 1700000001]
 
 
@@ -79,7 +79,25 @@ def run(tier):
     rng = random.Random(vlib.seed())
     quick = tier == "quick"
     scen = [mk(rng, quick) for _ in range(2500 if quick else 30000)]
+    # concurrent: the same operation lists with the table updates in a goroutine of their own and two EmitSync callers
+    conc = []
+    while len(conc) < (400 if quick else 5000):
+        sc = mk(rng, quick)
+        if "where" in sc["meta"] or not any(o["op"] in ("upsert", "delete") for o in sc["ops"]):
+            continue
+        extra = mk(rng, quick)      # more rows and updates of the same shape: longer overlap
+        for o in sc["ops"]:
+            if o["op"] in ("sync", "emit"): o["op"] = "sync"
+        sc["ops"] = sc["ops"] * 3
+        rid = 0
+        for o in sc["ops"]:
+            if o["op"] == "sync":
+                rid += 1
+                o["row"] = dict(o["row"], id=rid)
+        sc.update(conc=True, seed=rng.randrange(1 << 30))
+        conc.append(sc)
     seqfam.run_scenarios(res, scen, "TraceJoin", tag="join")
+    seqfam.run_scenarios(res, conc, "TraceJoinConc", tag="joinconc")
     res.cov["exhaustive"] = False
     res.cov["distinct_nontrivial"] = len({json.dumps(s["ops"], sort_keys=True) + s["sql"] for s in scen})
     res.cov["rule"] = ("seeded operation sequences (4-8 of EmitSync / Emit / UpsertTable / Delete) over single and two-component keys drawn from "
